@@ -158,7 +158,7 @@ class AppGen:
         c = Cls("%s_C%d" % (self.appid, self.ncls))
         self.ncls += 1
         nparams = r.randint(sh["minp"], sh["maxp"])
-        narr = r.randint(0, sh["maxarr"])
+        narr = r.randint(sh.get("minarr", 0), sh["maxarr"])
         nsub = r.randint(sh["minsub"], sh["maxsub"]) if depth < sh["depth"] else 0
         nchain = sh.get("chain", 0) if depth == 0 else 0
         neleaf = r.randint(0, sh["eleaf"]) if sh.get("eleaf") else 0
@@ -218,8 +218,9 @@ class AppGen:
             else:
                 keys = self.preset_keys(par)
                 tbl = {}
+                full = bool(sh.get("optcounts")) and len(keys) >= 10 and r.random() < 0.6     # rPresets of 12..16 entries
                 for k in keys:
-                    if r.random() < 0.8:
+                    if full or r.random() < 0.8:
                         tbl[k] = self.rand_val(p["kind"], p)
                 fb = p["dflt"][1]
                 dense = sorted(tbl) == list(range(len(tbl))) and len(tbl) > 0
@@ -313,7 +314,10 @@ class AppGen:
                     params.append(t)
                     togs.append(t)
                     cand = [t]
-                p["en"] = r.choice(cand)["name"]
+                t = r.choice(cand)
+                p["en"] = t["name"]
+                if r.random() < 0.7:
+                    t["dflt"] = ("K", ("F",))        # mostly off in a fresh instance: the file has to switch it on first
         for p in params:
             c.fields.append(p)
         for i in range(narr):
@@ -1158,14 +1162,14 @@ SHAPES = [
     # added after the white-box reviews of C12/C13:
     # A8  wide table: rDepends lists / rOptions / rPresets of 12..16 entries, arrays of 10..14 elements with defaults spelled
     #     as repetitions / ranges / per preset, strings of a few hundred characters
-    (109, dict(minp=18, maxp=20, maxarr=4, minsub=0, maxsub=0, depth=0, pdep=0.5, allkinds=True, longdeps2=True,
+    (109, dict(minp=18, maxp=20, minarr=5, maxarr=6, minsub=0, maxsub=0, depth=0, pdep=0.5, allkinds=True, longdeps2=True,
                optcounts=[2, 3, 12, 13, 16], strlens=[8, 300, 400], arrlens=(10, 14), arrstyles=True)),
     # A9  a chain of seven preset-dependent defaults, rEnabledBy on parameters, sub-trees with rDepends, ports with the
     #     enumeration inside their name (v#3/en), sibling names that extend each other
-    (110, dict(minp=4, maxp=6, maxarr=2, minsub=2, maxsub=3, depth=1, pdep=0.5, chain=7, leafen=0.4, subdeps=0.7, eleaf=2,
+    (234, dict(minp=3, maxp=4, minarr=1, maxarr=2, minsub=1, maxsub=2, depth=1, pdep=0.5, chain=7, leafen=0.6, subdeps=0.7, eleaf=1,
                prefixnames=0.35, arrstyles=True, arrlens=(3, 11))),
     # A10 the same constructs two levels deep
-    (111, dict(minp=3, maxp=5, maxarr=1, minsub=1, maxsub=2, depth=2, pdep=0.6, leafen=0.35, subdeps=0.6, eleaf=1,
+    (219, dict(minp=2, maxp=3, minarr=0, maxarr=1, minsub=1, maxsub=2, depth=2, pdep=0.6, leafen=0.55, subdeps=0.6, eleaf=1,
                prefixnames=0.3, arrstyles=True)),
 ]
 
